@@ -131,6 +131,7 @@ func runHistory(r *sup.CaseResult, gen *mfs.Gen, nops int, cfg cfgT, tmp string)
 		r.Violate(class, detail, map[string]any{"history": mfs.HistString(hist), "config": fmt.Sprintf("%+v", cfg), "model_tree": model.Root.Dump()})
 	}
 	var inPre, outPre, mutated int64
+	grown := false
 	for i := 0; i < nops; i++ {
 		op := gen.Next()
 		hist = append(hist, op)
@@ -138,8 +139,13 @@ func runHistory(r *sup.CaseResult, gen *mfs.Gen, nops int, cfg cfgT, tmp string)
 		pre := model.Clone()
 		segs1, _ := pre.Resolve(op.View, op.P1)
 		segs2, ok2 := pre.Resolve(op.View, op.P2)
-		dBefore, _ = mfs.Observe(dfs)
-		mBefore, _ = mfs.Observe(mem)
+		if pre.Root.Depth() > 40 {
+			grown = true // self-copies nest the tree deeper and deeper: stop without verdict
+			break
+		}
+		// the same guards before and after the step (a walk cut at another depth would look like a change)
+		dBefore, _ = mfs.ObserveLimit(dfs, pre.Root.Depth()+8, 200000)
+		mBefore, _ = mfs.ObserveLimit(mem, pre.Root.Depth()+8, 200000)
 		dr := ds.Exec(i, op)
 		mr := ms.Exec(i, op)
 		v := model.Step(op, mr)
@@ -155,8 +161,22 @@ func runHistory(r *sup.CaseResult, gen *mfs.Gen, nops int, cfg cfgT, tmp string)
 			fail("host-outside-changed", fmt.Sprintf("step %d %s: the host directory outside the filespace root changed", i, op))
 			break
 		}
-		dAfter, danom := mfs.ObserveLimit(dfs, model.Root.Depth()+6, 100000)
-		mAfter, _ := mfs.ObserveLimit(mem, model.Root.Depth()+6, 100000)
+		if model.Root.Count() > 3000 {
+			// copies of a directory below itself double the tree: a history that has grown this far
+			// stops without verdict (the walks below would run into their node budget)
+			grown = true
+			break
+		}
+		guard := pre.Root.Depth()
+		if d := model.Root.Depth(); d > guard {
+			guard = d // a copy below itself makes the tree deeper by the depth of its destination
+		}
+		dAfter, danom := mfs.ObserveLimit(dfs, guard+8, 200000)
+		mAfter, manom := mfs.ObserveLimit(mem, guard+8, 200000)
+		if budgetHit(danom) || budgetHit(manom) {
+			grown = true // a truncated walk is no observation
+			break
+		}
 		if op.Kind == mfs.OpFilespace {
 			if dr.Err != mr.Err {
 				// obtaining a view is not a compared operation; keep the view lists aligned
@@ -228,6 +248,9 @@ func runHistory(r *sup.CaseResult, gen *mfs.Gen, nops int, cfg cfgT, tmp string)
 			r.AddObs("model_resync_stop", 1)
 			break
 		}
+	}
+	if grown {
+		r.AddObs("histories_stopped_because_the_tree_had_grown_past_3000_nodes", 1)
 	}
 	r.AddObs("steps_in_preconditions", inPre)
 	r.AddObs("steps_outside_preconditions", outPre)
@@ -335,4 +358,13 @@ func namePool(idx int) []string {
 		return []string{"a", "a.tmp", "b"} // a sibling that looks like a temporary name of another
 	}
 	return []string{"a", "b", "c"}
+}
+
+func budgetHit(anoms []string) bool {
+	for _, a := range anoms {
+		if strings.Contains(a, "walk budget exhausted") {
+			return true
+		}
+	}
+	return false
 }
